@@ -63,7 +63,8 @@ def gen(out):
     rel = "src/engine/core/zone/selector/field_selector.rs"
     s = read(rel)
     arms = [("temporal", "IndexStrategy::TemporalEq", "IndexStrategy::EnumBitmap", r"CompareOp::Neq"),
-            ("enum", "IndexStrategy::EnumBitmap", "IndexStrategy::ZoneSuRF", r"CompareOp::Neq"),
+            ("enum", "IndexStrategy::EnumBitmap", "IndexStrategy::ZoneSuRF",
+             r"CompareOp::Neq|!matches!\(\s*operation,\s*Some\(CompareOp::Eq\)\)"),   # 01eee7e: every operator but = falls back
             ("zonexor", "IndexStrategy::ZoneXorIndex", "IndexStrategy::XorPresence", r"!matches!\(\s*operation,\s*Some\(CompareOp::Eq\)\)")]
     for name, a, z, guard in arms:
         arm = between(s, rel, a + " {", z + " {")
